@@ -252,7 +252,7 @@ func C14() int {
 		res = append(res, f.re)
 	}
 	c.Set("regexps", append(res, rfam.re))
-	c.Set("race_reports", s.RaceReports())
+	raceVerdict(s, c)
 	if c.Counter("leaves_judged") < 30000 {
 		c.Inconclusive(fmt.Sprintf("only %d leaves judged", c.Counter("leaves_judged")))
 	}
